@@ -427,7 +427,7 @@ func runC14(c *Ctx) {
 			}()
 		}
 		wgs.Wait()
-		f, _ := sgetty.VerifPendingFutures()
+		f := settledFutures()
 		var parts, evs []string
 		okAll := true
 		for k := 0; k < n; k++ {
@@ -570,10 +570,22 @@ func runC14(c *Ctx) {
 		coord.Script = nil
 		res, err := sgetty.GetGettyRemotingClient().SendSyncRequest(message.GlobalStatusRequest{AbstractGlobalEndRequest: message.AbstractGlobalEndRequest{Xid: "fresh"}})
 		okf := err == nil && res != nil
-		f, _ := sgetty.VerifPendingFutures()
+		f := settledFutures()
 		obs := fmt.Sprintf("c1=%s residue=%d blocked=%d", map[bool]string{true: "own", false: "timeout"}[okf], f, parkedInDelivery())
 		c.Out.Case("fresh-after", "C14", "sched 1 s1 r1", obs)
 		c.Out.Oracle("fresh-after", okf && f == 0, "fresh_request_after_disturbance", obs)
 		c.Out.Tag("fresh-after", "nontrivial=1")
 	}
+}
+
+// settledFutures reads the size of the pending-request table once requests that are being answered in the
+// background (the registration a freshly opened session triggers) have had a moment to complete: what is
+// still there after that has been left behind
+func settledFutures() int {
+	f, _ := sgetty.VerifPendingFutures()
+	for k := 0; k < 30 && f > 0; k++ {
+		time.Sleep(10 * time.Millisecond)
+		f, _ = sgetty.VerifPendingFutures()
+	}
+	return f
 }
